@@ -197,7 +197,8 @@ Inductive qres := QF (v : fv) | QM (m : mv).
 Inductive hop :=
 | HFilter (filt : list bool)    (* parent: new filter, apply_filter() *)
 | HRefresh                      (* child.rejuvenate() *)
-| HQuery (which : Z).           (* child[feat].min() / .max() / .mean() *)
+| HQuery (which : Z)            (* child[feat].min() / .max() / .mean() *)
+| HRead.                        (* child[feat][:]: the data are loaded and kept *)
 
 Definition new_cobj : cobj := {| o_arr := None; o_min := None; o_max := None; o_mean := None |}.
 
@@ -233,6 +234,13 @@ Definition hstep (s : hstate) (o : hop) : hstate :=
   | HRefresh => {| h_vals := h_vals s; h_filt := h_filt s; h_obj := None; h_changed := false |}
   | HQuery w => {| h_vals := h_vals s; h_filt := h_filt s; h_obj := Some (snd (hquery s w));
                    h_changed := h_changed s |}
+  | HRead =>
+      let o := match h_obj s with Some o => o | None => new_cobj end in
+      let arr := match o_arr o with Some a => a | None => select (h_filt s) (h_vals s) end in
+      {| h_vals := h_vals s; h_filt := h_filt s;
+         h_obj := Some {| o_arr := Some arr; o_min := o_min o; o_max := o_max o;
+                          o_mean := o_mean o |};
+         h_changed := h_changed s |}
   end.
 Definition hrun (s : hstate) (ops : list hop) : hstate := fold_left hstep ops s.
 
@@ -256,6 +264,18 @@ Fixpoint hrun_out (s : hstate) (ops : list hop) : list (bool * qres) :=
    of its events and are not used) *)
 Definition mapped (bm : list Z) (vals : list fv) : list fv :=
   map (fun i => nth (Z.to_nat i) vals NaN) bm.
+(* BasinProxyFeature keeps the mapped data (_cache) once they were read and
+   its summaries (_ufunc_attrs); the basin map never changes. Its history is
+   that of a feature object over the mapped events with reads and queries
+   in any order: [hrun (binit bm vals)] with HRead / HQuery only. *)
+Definition binit (bm : list Z) (vals : list fv) : hstate := hinit (mapped bm vals).
+Definition is_rq (o : hop) : bool :=
+  match o with HQuery _ | HRead => true | _ => false end.
+Definition spec_b (bm : list Z) (vals : list fv) (which : Z) : qres :=
+  let sel := mapped bm vals in
+  if which =? 0 then QF (nanmin_l sel) else if which =? 1 then QF (nanmax_l sel)
+  else QM (nanmean_l sel).
+
 Definition basin_q (bm : list Z) (d : sdset) (which : Z) : qres :=
   let sel := mapped bm (d_vals d) in
   if which =? 0 then QF (nanmin_l sel) else if which =? 1 then QF (nanmax_l sel)
@@ -320,9 +340,17 @@ Definition run_flat (tops : list (Z * Z * list (Z * Z))) : list Z :=
 Definition dec_hop (t : Z * list Z) : hop :=
   let '(tag, p) := t in
   if tag =? 0 then HFilter (map (fun b => negb (b =? 0)) p)
-  else if tag =? 1 then HRefresh else HQuery (hd 0 p).
+  else if tag =? 1 then HRefresh else if tag =? 2 then HQuery (hd 0 p) else HRead.
 
 Definition child_flat (case : list (Z * Z) * list (Z * list Z)) : list Z :=
   let '(vals, tops) := case in
   flat_map (fun r : bool * qres => (if fst r then 1 else 0) :: enc_q (snd r))
            (hrun_out (hinit (map dec vals)) (map dec_hop tops)).
+
+(* mapped-basin histories: values of the basin, basin map, ops (0..2 query
+   min/max/mean, 3 read the data); the results of the queries in order *)
+Definition basin_flat (case : list (Z * Z) * list Z * list Z) : list Z :=
+  let '(vals, bm, tops) := case in
+  flat_map (fun r : bool * qres => enc_q (snd r))
+           (hrun_out (binit bm (map dec vals))
+                     (map (fun t => if t =? 3 then HRead else HQuery t) tops)).
